@@ -7,6 +7,7 @@ package main
 // cases (Corr/C08.v case_oracle_code).  No hook, no model here.
 
 import (
+	"crypto/sha256"
 	"fmt"
 	"io/ioutil"
 	"math/big"
@@ -55,7 +56,10 @@ type E2EPlay struct {
 // writeE2E generates the plays.  immediate: every SIGHUP handler exits right
 // after printing its last line (else all handlers linger 0.3 s, so that the
 // line has certainly been read before the process is gone).  small: few lines.
-func writeE2E(rng *rand.Rand, dir string, n int, immediate, small bool) {
+// burst > 0: the first actor's SIGHUP handler prints that many short matching
+// lines (`p=<k>`) in one go before its last line: they are still in the pipe
+// when the process is gone, and every one of them must yield its row.
+func writeE2E(rng *rand.Rand, dir string, n int, immediate, small bool, burst int) {
 	g := &Gen{R: rng, Modalities: cmd.VerifModalities(), NonFinite: true}
 	var plays []E2EPlay
 	for i := 0; i < n; i++ {
@@ -76,6 +80,16 @@ func writeE2E(rng *rand.Rand, dir string, n int, immediate, small bool) {
 		c.Auditor = nil // a disappointed auditor fouls the play: keep the exit status meaningful
 		c.Sentinel = true
 		c.WithMe = true
+		if burst > 0 {
+			// keep the burst's rows to one signal: no everything-is-the-text patterns
+			for ri := range c.Roles {
+				for si := range c.Roles[ri].Sigs {
+					if c.Roles[ri].Sigs[si].ValRe == "whole" {
+						c.Roles[ri].Sigs[si].ValRe = `\S+`
+					}
+				}
+			}
+		}
 		// every role also has a scalar and an event signal on the reception
 		// time, watched by o1 / o2, for the lines that begin with punctuation
 		// or with what looks like a shell trace (`+ p=5`, `++ q=up`, `# ...`)
@@ -158,6 +172,15 @@ func writeE2E(rng *rand.Rand, dir string, n int, immediate, small bool) {
 		for _, a := range cast {
 			items = append(items, ItemGen{Kind: "line", Line: &LineGen{Actor: a, TsKind: "none", Body: []string{"THE-END"}, Text: "THE-END"}})
 		}
+		nFinal := map[string]int{}
+		for k := 0; k < burst; k++ {
+			v := fmt.Sprintf("%d", k%97)
+			if _, ok := nums[v]; !ok {
+				nums[v] = &NumTok{S: v, Valid: true, Val: big.NewRat(int64(k%97), 1)}
+			}
+			items = append(items, ItemGen{Kind: "line", Line: &LineGen{Actor: cast[0], TsKind: "none", Body: []string{"p=" + v}, Text: "p=" + v}})
+			nFinal[cast[0]]++
+		}
 		// the last word of every actor: printed by its spotlight when it is
 		// told to stop (SIGHUP at the end of the play), i.e. while the
 		// spotlight is being shut down.  Prefer a line that yields a point.
@@ -224,7 +247,8 @@ func writeE2E(rng *rand.Rand, dir string, n int, immediate, small bool) {
 				linger = ""
 				immediateOf[a] = true
 			}
-			for k, l := range ls[:len(ls)-1] {
+			nf := nFinal[a] + 1
+			for k, l := range ls[:len(ls)-nf] {
 				// blanks around some lines: the spotlight trims them; a
 				// blank line is empty, or made of blanks only
 				switch (k + len(a)) % 5 {
@@ -244,7 +268,7 @@ func writeE2E(rng *rand.Rand, dir string, n int, immediate, small bool) {
 			if ai%2 == 0 {
 				nl = ""
 			}
-			vh.WriteFile(pdir, a+".final", ls[len(ls)-1]+nl)
+			vh.WriteFile(pdir, a+".final", strings.Join(ls[len(ls)-nf:], "\n")+nl)
 			script := "trap 'echo hup >> " + abs + "/" + a + ".hup; cat " + abs + "/" + a + ".final; echo ok >> " + abs + "/" + a + ".hupdone; " + linger + "exit 0' HUP\n" +
 				"echo start >> " + abs + "/" + a + ".started\n" +
 				"n=0\nwhile IFS= read -r l; do\n  n=$((n+1))\n" +
@@ -473,6 +497,55 @@ func checkE2E(dir, out string) {
 			sort.Slice(offs, func(i, j int) bool { return offs[i] < offs[j] })
 			off = offs[len(offs)/2]
 		}
+		// a scalar file of more than 500 expected rows (the burst) goes to
+		// Coq as ONE row on each side: the number of rows and the SHA-256 of
+		// the values, expected vs observed, computed here (keeps the case
+		// terms small; the times of those rows are not judged)
+		for fi := range p.Expect {
+			f := &p.Expect[fi]
+			if f.Kind != 1 || len(f.Points) <= 500 {
+				continue
+			}
+			var eb strings.Builder
+			ok := true
+			for _, pt := range f.Points {
+				if pt.Num == "" { // a scalar spelled Inf / NaN
+					fmt.Fprintf(&eb, "%s\n", pt.Text)
+					continue
+				}
+				r, good := new(big.Rat).SetString(pt.Num)
+				if !good {
+					ok = false
+					break
+				}
+				x, _ := r.Float64()
+				fmt.Fprintf(&eb, "%v\n", x)
+			}
+			if !ok {
+				continue
+			}
+			first := f.Points[0]
+			first.Now, first.Num = true, ""
+			first.Text = fmt.Sprintf("ROWS[%d rows, sha256 %x]", len(f.Points), sha256.Sum256([]byte(eb.String())))
+			f.Points = []E2EPoint{first}
+			for _, w := range f.Watchers {
+				k := FileKey{w, f.Actor, f.Sig}
+				rs := rows[k]
+				var ob strings.Builder
+				var t0 int64
+				for ri, r := range rs {
+					if ri == 0 {
+						t0 = r.T10k
+					}
+					if r.IsNum && !r.Bad {
+						fmt.Fprintf(&ob, "%v\n", r.Num)
+					} else {
+						fmt.Fprintf(&ob, "%s\n", r.Text)
+					}
+				}
+				rows[k] = []CsvRow{{T10k: t0, Text: fmt.Sprintf("ROWS[%d rows, sha256 %x]", len(rs), sha256.Sum256([]byte(ob.String())))}}
+			}
+		}
 		durNs := int64(run.WallS * 1e9)
 		maxItem := 0
 		var intV []string
@@ -483,9 +556,6 @@ func checkE2E(dir, out string) {
 				ws = append(ws, coqS(w))
 			}
 			for _, pt := range f.Points {
-				if pt.Item > maxItem {
-					maxItem = pt.Item
-				}
 				t := "TNs " + coqZ(pt.Ns)
 				if pt.Now {
 					t = "TNow"
@@ -499,7 +569,8 @@ func checkE2E(dir, out string) {
 				} else if f.Kind != 0 {
 					d = "DText " + coqS(pt.Text) // a scalar spelled Inf / NaN
 				}
-				ps = append(ps, fmt.Sprintf("(%d%%nat, %s, %s)", pt.Item, t, d))
+				// every item of a real play has the same bracket (the whole play)
+				ps = append(ps, fmt.Sprintf("(0%%nat, %s, %s)", t, d))
 			}
 			nPoints += len(f.Points) * len(f.Watchers)
 			intV = append(intV, fmt.Sprintf("{| i_var := (%s, %s); i_kind := %s; i_watchers := [%s]; i_points := [%s] |}",
